@@ -66,7 +66,12 @@ func Verif_C07_mapregion() {
 	var calls [vfC07MaxCalls]vfMapCall
 	n := 0
 	mapErr := &kernel.Error{Module: "verif", Message: "map failed"}
+	needed := int(size >> mm.PageShift)
+	if size&(mm.PageSize-1) != 0 {
+		needed++
+	}
 	mapFn = func(p mm.Page, f mm.Frame, fl PageTableEntryFlag) *kernel.Error {
+		zzverif.Assert(n < needed, "no page beyond those needed to cover the size is mapped")
 		if n < vfC07MaxCalls {
 			calls[n] = vfMapCall{p, f, fl}
 		}
@@ -77,10 +82,6 @@ func Verif_C07_mapregion() {
 		return nil
 	}
 	page, err := MapRegion(frame, size, flags)
-	needed := int(size >> mm.PageShift)
-	if size&(mm.PageSize-1) != 0 {
-		needed++
-	}
 	if err == nil {
 		zzverif.Reach("ok")
 		zzverif.Assert(n == needed, "exactly the pages needed to cover the size are mapped")
@@ -112,7 +113,12 @@ func Verif_C07_identitymap() {
 	var calls [vfC07MaxCalls]vfMapCall
 	n := 0
 	mapErr := &kernel.Error{Module: "verif", Message: "map failed"}
+	needed := int(size >> mm.PageShift)
+	if size&(mm.PageSize-1) != 0 {
+		needed++
+	}
 	mapFn = func(p mm.Page, f mm.Frame, fl PageTableEntryFlag) *kernel.Error {
+		zzverif.Assert(n < needed, "no page beyond those needed to cover the size is mapped")
 		if n < vfC07MaxCalls {
 			calls[n] = vfMapCall{p, f, fl}
 		}
@@ -123,10 +129,6 @@ func Verif_C07_identitymap() {
 		return nil
 	}
 	page, err := IdentityMapRegion(frame, size, flags)
-	needed := int(size >> mm.PageShift)
-	if size&(mm.PageSize-1) != 0 {
-		needed++
-	}
 	if err == nil {
 		zzverif.Reach("ok")
 		zzverif.Assert(n == needed, "exactly the pages needed to cover the size are mapped")
